@@ -1,3 +1,4 @@
 //! Shared generators (proptest strategies).
 pub mod text;
 pub mod wb;
+pub mod style;
